@@ -851,6 +851,75 @@ func runLockRMW(c *core.Ctx) {
 				}
 			})
 		}
+		if len(gets) == 0 && len(inserts) > 0 && lookup {
+			// the index the response is looked up in is handed in by the caller: the read of the read-modify-write is the
+			// caller's IndexGet, and the mutex has to be held from there to the call — a mutex taken inside this function
+			// only covers the write half
+			hasIndexParam := false
+			for _, p := range fn.Params {
+				if isNamedType(p.Type(), r.TypesPath, "Index") {
+					hasIndexParam = true
+				}
+			}
+			if hasIndexParam {
+				name := c.P.FuncName(fn)
+				ok, judged := true, false
+				for _, site := range c.P.Callers(fn) {
+					caller := site.Parent()
+					if caller == nil || site.Common().StaticCallee() != fn {
+						continue
+					}
+					var cgets []ssa.CallInstruction
+					// the read the handed-in index comes from (through locals and variables captured by a closure)
+					for ai, a := range site.Common().Args {
+						if !isNamedType(a.Type(), r.TypesPath, "Index") {
+							continue
+						}
+						_ = ai
+						for _, o := range append([]ssa.Value{an.Origin(a)}, an.Origins(a)...) {
+							if gc, _ := an.CallOf(o); gc != nil && r.IsAPI(gc, "Repo", "IndexGet") {
+								cgets = append(cgets, gc)
+							}
+						}
+					}
+					if len(cgets) == 0 {
+						an.Calls(caller, func(call ssa.CallInstruction) {
+							if r.IsAPI(call, "Repo", "IndexGet") && an.Reaches(call, site) {
+								cgets = append(cgets, call)
+							}
+						})
+					}
+					if len(cgets) == 0 {
+						continue
+					}
+					judged = true
+					common := ^uint64(0)
+					for _, ev := range append(cgets, site) {
+						m, reached := mustHeldAt(e, ev)
+						if !reached {
+							m = 0
+						}
+						common &= m
+					}
+					if common == 0 {
+						ok = false
+					}
+				}
+				if judged {
+					rmwN++
+					if rmwFirst == nil {
+						rmwFirst = fn
+					}
+					if ok {
+						c.Pass("rmw:"+kn(name), fn.Pos(), "the index handed to %s is read by its callers under the mutex that is still held at the call", name)
+					} else {
+						rmwAll = 0
+						c.Fail("rmw:"+kn(name), fn.Pos(), "%s looks up a subject's referrers response in an index its caller read (IndexGet) before any common mutex was taken, and re-inserts a modified response: an update acknowledged between the caller's read and the lock is overwritten — the referrer it added is listed nowhere", name)
+					}
+				}
+			}
+			continue
+		}
 		if len(gets) == 0 || len(inserts) == 0 || !lookup {
 			continue
 		}
